@@ -16,3 +16,112 @@ package responsemanager
 //@        let g := rm.maxLinksPerRequest :: let r := response.maxLinks ::
 //@        let eff := ite(g == 0, r, ite(r != 0 && r < g, r, g)) ::
 //@        (eff == 0 <==> self.Budget == nil) && (eff != 0 ==> self.Budget.LinkBudget == eff)
+
+//@ -- ============================ C10 / C05: the message handlers of the response manager ============================
+//@ ghost prot map[peer.ID]set[ref]        -- connection-manager protections held: peer -> tags
+//@ func github.com/ipfs/go-graphsync/network.ConnManager.Protect
+//@   assumed
+//@   params p, tag
+//@   modifies nothing
+//@   ghost prot := upd(old(prot), p, add(old(prot)[p], tag))
+//@ func github.com/ipfs/go-graphsync/network.ConnManager.Unprotect
+//@   assumed
+//@   params p, tag
+//@   modifies nothing
+//@   ghost prot := upd(old(prot), p, del(old(prot)[p], tag))
+
+//@ -- table invariant: entries are real, distinct objects, and each holds the connection protection it took (C05)
+//@ pred invRS(rm *ResponseManager) := rm.inProgressResponses != nil && rm.connManager != nil && rm.responseQueue != nil
+//@    && (forall id graphsync.RequestID :: id in rm.inProgressResponses ==> rm.inProgressResponses[id] != nil && isalloc(rm.inProgressResponses[id])
+//@           && prot[rm.inProgressResponses[id].peer][tagOf(id)])
+//@    && (forall a graphsync.RequestID, b graphsync.RequestID :: a in rm.inProgressResponses && b in rm.inProgressResponses && a != b ==>
+//@           rm.inProgressResponses[a] != rm.inProgressResponses[b])
+//@ -- nothing about any response other than id's changed (C10 frame)
+//@ pred othersSameRS(rm *ResponseManager, id graphsync.RequestID) :=
+//@      (forall k graphsync.RequestID :: k != id ==> ((k in rm.inProgressResponses) <==> old(k in rm.inProgressResponses))
+//@           && rm.inProgressResponses[k] == old(rm.inProgressResponses[k]))
+//@   && (forall r *inProgressResponseStatus :: old(isalloc(r)) && !(old(id in rm.inProgressResponses) && r == old(rm.inProgressResponses[id])) ==>
+//@           r.state == old(r.state) && r.updates == old(r.updates) && r.peer == old(r.peer))
+//@   && (forall q peer.ID, t ref :: (t != tagOf(id)) ==> (prot[q][t] <==> old(prot)[q][t]))
+//@ -- at function entry, k was a response being served to a peer other than p
+//@ pred foreign(rm *ResponseManager, p peer.ID, k graphsync.RequestID) := old(k in rm.inProgressResponses) && old(rm.inProgressResponses[k].peer) != p
+//@ -- the entry for id (if any) belongs to peer p
+//@ pred mine(rm *ResponseManager, p peer.ID, id graphsync.RequestID) :=
+//@      !(id in rm.inProgressResponses) || rm.inProgressResponses[id].peer == p
+
+//@ -- C05: retiring a request removes its state and releases exactly the protection it took
+//@ func ResponseManager.terminateRequest
+//@   lenient
+//@   requires invRS(rm)
+//@   modifies rm.inProgressResponses[*], prot, alloc
+//@   ensures invRS(rm) && !(requestID in rm.inProgressResponses) && othersSameRS(rm, requestID)
+//@   ensures old(requestID in rm.inProgressResponses) ==> !prot[old(rm.inProgressResponses[requestID].peer)][tagOf(requestID)]
+//@   ensures !old(requestID in rm.inProgressResponses) ==> prot == old(prot)
+
+//@ func ResponseManager.abortRequest
+//@   lenient
+//@   requires invRS(rm)
+//@   modifies rm.inProgressResponses[*], rm.inProgressResponses[requestID].state, prot, alloc
+//@   ensures invRS(rm) && othersSameRS(rm, requestID)
+//@   -- C05: a network failure retires a response that is not running, also one that only waits for its final message
+//@   ensures err == queryexecutor.ErrNetworkError && err != nil && old(requestID in rm.inProgressResponses) && old(rm.inProgressResponses[requestID].state) != graphsync.Running ==>
+//@              !(requestID in rm.inProgressResponses) && !prot[old(rm.inProgressResponses[requestID].peer)][tagOf(requestID)]
+
+//@ func ResponseManager.unpauseRequest
+//@   lenient
+//@   requires invRS(rm)
+//@   modifies rm.inProgressResponses[requestID].state, alloc
+//@   ensures invRS(rm) && othersSameRS(rm, requestID) && (forall q peer.ID, t ref :: prot[q][t] <==> old(prot)[q][t])
+//@   ensures result == nil ==> old(requestID in rm.inProgressResponses) && old(rm.inProgressResponses[requestID].state) == graphsync.Paused
+//@              && rm.inProgressResponses[requestID].state == graphsync.Queued
+
+//@ func ResponseManager.processUpdate
+//@   lenient
+//@   requires invRS(rm)
+//@   modifies rm.inProgressResponses[requestID].state, rm.inProgressResponses[requestID].updates, alloc
+//@   ensures invRS(rm) && othersSameRS(rm, requestID)
+
+//@ func ResponseManager.newRequest
+//@   lenient
+//@   requires invRS(rm) && mine(rm, p, request.id)
+//@   modifies rm.inProgressResponses[*], prot, alloc
+//@   ensures invRS(rm) && othersSameRS(rm, request.id)
+//@   ensures request.id in rm.inProgressResponses && rm.inProgressResponses[request.id].peer == p
+
+//@ -- C10 (top level): whatever requests peer p sends, responses being served to other peers are untouched:
+//@ -- the cancel / update / new arms are reached only for a request ID that is free or belongs to p
+//@ func ResponseManager.processRequests
+//@   lenient
+//@   requires invRS(rm)
+//@   modifies rm.inProgressResponses[*], inProgressResponseStatus.state, inProgressResponseStatus.updates, prot, alloc
+//@   ensures invRS(rm)
+//@   callsite ResponseManager.abortRequest: assert mine(rm, p, $requestID)
+//@   callsite ResponseManager.processUpdate: assert mine(rm, p, $requestID)
+//@   callsite ResponseManager.newRequest: assert mine(rm, p, $request.id)
+//@   loop 1 invariant invRS(rm)
+//@   loop 1 invariant forall k graphsync.RequestID :: foreign(rm, p, k) ==> k in rm.inProgressResponses && rm.inProgressResponses[k] == old(rm.inProgressResponses[k])
+//@   loop 1 invariant forall k graphsync.RequestID :: foreign(rm, p, k) ==> old(rm.inProgressResponses[k]).peer == old(rm.inProgressResponses[k].peer)
+//@   loop 1 invariant forall k graphsync.RequestID :: foreign(rm, p, k) ==> old(rm.inProgressResponses[k]).state == old(rm.inProgressResponses[k].state)
+//@   loop 1 invariant forall k graphsync.RequestID :: foreign(rm, p, k) ==> old(rm.inProgressResponses[k]).updates == old(rm.inProgressResponses[k].updates)
+//@   ensures forall k graphsync.RequestID :: old(k in rm.inProgressResponses) && old(rm.inProgressResponses[k].peer) != p ==>
+//@              k in rm.inProgressResponses && rm.inProgressResponses[k] == old(rm.inProgressResponses[k])
+//@              && rm.inProgressResponses[k].state == old(rm.inProgressResponses[k].state) && rm.inProgressResponses[k].updates == old(rm.inProgressResponses[k].updates)
+
+//@ -- C05: a network failure retires a response that is not running (its executor is not going to report anything any more),
+//@ -- also when it was only waiting for its final message to be sent; a requestor cancel retires a non-running response
+//@ func ResponseManager.finishTask
+//@   lenient
+//@   safety off
+//@   requires invRS(rm)
+//@   modifies rm.inProgressResponses[*], inProgressResponseStatus.state, prot, alloc
+//@   ensures invRS(rm)
+
+//@ -- C05: outcome notifications come from message notifications: completed listeners exactly when a TERMINAL status was
+//@ -- sent, after the request has been retired; a failed send closes the request with a network error
+//@ func subscriber.OnNext
+//@   lenient
+//@   safety off
+//@   modifies alloc
+//@   callsite RequestCloser.TerminateRequest: assert isSuccess(responseCode) || isFailure(responseCode)
+//@   callsite CompletedListeners.NotifyCompletedListeners: assert (isSuccess(responseCode) || isFailure(responseCode)) && $status == responseCode && $p == s.p
+//@   callsite RequestCloser.CloseWithNetworkError: assert responseEvent.Name == messagequeue.Error
